@@ -277,6 +277,45 @@ macro_rules! define_hasher {
                 *self = Self::default();
             }
         }
+
+        /// Verification hook (only with `--cfg cryptocorrosion_verif`): read and overwrite
+        /// the private state so that arbitrary chaining values and byte positions can be entered.
+        #[cfg(cryptocorrosion_verif)]
+        impl<N> $name<N>
+        where
+            N: Unsigned + ArrayLength<u8> + NonZero + Default,
+        {
+            /// (chaining value x, tweak (t.0, t.1), buffer content, buffer position);
+            /// buffer bytes at and beyond the position are reported as zero.
+            pub fn verif_get_state(
+                &self,
+            ) -> (
+                GenericArray<u8, $state_bytes>,
+                (u64, u64),
+                GenericArray<u8, $state_bytes>,
+                usize,
+            ) {
+                let pos = self.buffer.position();
+                let mut b = self.buffer.clone();
+                let content = b.pad_with::<ZeroPadding>().unwrap().clone();
+                (*self.state.x.as_byte_array(), self.state.t, content, pos)
+            }
+
+            /// Overwrites chaining value and tweak; the buffer then holds `buffered`
+            /// (at most one block; a full block is a pending lazy block).
+            pub fn verif_set_state(
+                &mut self,
+                x: &GenericArray<u8, $state_bytes>,
+                t: (u64, u64),
+                buffered: &[u8],
+            ) {
+                assert!(buffered.len() <= $state_bits / 8);
+                self.state.x = Block::from_byte_array(x);
+                self.state.t = t;
+                self.buffer.reset();
+                self.buffer.input_lazy(buffered, |_| unreachable!());
+            }
+        }
     };
 }
 
